@@ -875,6 +875,8 @@ def run(ctx):
         # quadratic in the depth (2.5 GB and 40 GB of standard output), read and counted while the other sections run
         bigjobs = []
         for label, data, want_lines, last_name in big_corpus():
+            if label == "corpus-deep-path-200000" and not ctx.thorough:
+                continue      # 40 GB of terminal output: thorough tier only (the 50000 witness overflowed the old code as well)
             small_one = label == "corpus-deep-path-50000"
             for cmd in (["showterm", "show", "showjson"] + (["link", "verify", "dump", "stats"] if small_one or ctx.thorough else [])):
                 for via in ([False, True] if (small_one or ctx.thorough) and cmd != "stats" else [False]):
